@@ -217,9 +217,8 @@ class C09Engine(GenEngineBase):
         stats["texts_printed"] = len(res["outputs"])
         if any(a[0] != "fault" and a[0] in ("trace",) for a in hist) and len(hist) > 8:
             probes["interleaved_steps_histories"] = 1
-        sample = None
-        if compared >= 2 and len(hist) <= 14:
-            sample = {"hashseed": case.get("hashseed"), "history": hist}
+        sample = {"hashseed": case.get("hashseed"), "n_actions": len(hist), "history_first_actions": hist[:14],
+                  "texts_compared": compared}
         return {
             "case": case,
             "digest": res["digest"],
